@@ -1,1 +1,2 @@
 pub mod seqexact;
+pub mod bitsprops;
